@@ -311,10 +311,10 @@ def _parse_tokenize(rule):
             yield lowered, clean
         elif clean:
             # Not a special token, but not composed solely of ')'
-            if len(tok) >= 2 and ((tok[0], tok[-1]) in
-                                  [('"', '"'), ("'", "'")]):
+            if len(clean) >= 2 and ((clean[0], clean[-1]) in
+                                    [('"', '"'), ("'", "'")]):
                 # It's a quoted string
-                yield 'string', tok[1:-1]
+                yield 'string', clean[1:-1]
             else:
                 yield 'check', _parse_check(clean)
 
